@@ -497,8 +497,10 @@ class EvolutionaryOptimizer(metaclass=ABCMeta):
             the name of the pickle file to dump
         """
         LOGGER.log(INFO, "Saving checkpoint: %s", filename)
-        with open(filename, "wb") as dump_file:
+        temp_filename = f"{filename}.tmp"
+        with open(temp_filename, "wb") as dump_file:
             dill.dump(self, dump_file, protocol=dill.HIGHEST_PROTOCOL)
+        os.replace(temp_filename, filename)
         LOGGER.log(DETAILED_INFO, "Saved successfully")
 
 
